@@ -276,3 +276,44 @@ def abstract_file(H, info, start=0, file_len=0):
         fields.append(b";".join(section_text(f, es) for f, es in secs))
         prev = info["startxrefs"][k]
     return fields
+
+
+def observation_check(H, info):
+    """judge one observation (fields of harness mode xr_all: one per object number below /Size, the trailer,
+    b"scan", the scan items) against what the history wrote; returns (check(fields) -> reason | None, size)"""
+    vals, size = expected_values(H, info)
+    last = len(H.revisions) - 1
+    scan = expected_scan(H, info)
+
+    def chk(out):
+        if len(out) < size + 2:
+            return "the file must load (got %r)" % (out[:1],)
+        for n in range(size):
+            if vals[n] is None:
+                if out[n].startswith(b"!"):
+                    return "object %d (auxiliary stream) does not resolve: %s" % (n, out[n][:40])
+            elif vals[n] in (b"!FreeObject", b"!NullRef"):
+                if out[n] not in (b"!FreeObject", b"!NullRef", b"!UnspecifiedXRefEntry"):
+                    return "object %d must be reported free/missing, got %s" % (n, out[n][:60])
+            elif out[n] != vals[n]:
+                return "object %d: expected %s got %s" % (n, vals[n][:80], out[n][:80])
+        tr = out[size]
+        if (b"VpRev".hex().encode() + b":i%d" % last) not in tr:
+            return "the trailer is not that of the newest section: %s" % tr[:200]
+        if out[size + 1] != b"scan":
+            return "protocol"
+        items = out[size + 2:]
+        if len(items) != len(scan):
+            return "scan lists %d items, the file has %d before the newest xref section" % (len(items), len(scan))
+        for it, ex in zip(items, scan):
+            if ex == ("T",):
+                if not it.startswith(b"T "):
+                    return "scan: expected a trailer item, got %s" % it[:40]
+            else:
+                head = b"O%d,%d " % (ex[0], ex[1])
+                if not it.startswith(head):
+                    return "scan: expected object %d %d, got %s" % (ex[0], ex[1], it[:40])
+                if ex[2] is not None and it[len(head):] != ex[2]:
+                    return "scan: object %d has value %s, expected %s" % (ex[0], it[len(head):][:60], ex[2][:60])
+        return None
+    return chk, size
